@@ -80,6 +80,9 @@ type Connection struct {
 	closed    chan struct{}
 	ready     chan struct{} // Closed when handshake completes and reader/writer are set
 
+	// Set when the manager has reported this connection as disconnected
+	disconnectNotified atomic.Bool
+
 	// Frame processing
 	frameCh    chan *protocol.Frame // Sequential frame dispatch channel (stream-ordered frames)
 	fastLaneCh chan *protocol.Frame // Parallel dispatch for unordered frames (UDP_DATAGRAM, ICMP_ECHO)
